@@ -47,6 +47,8 @@ type Evidence struct {
 	Violations  int            `json:"violations"`
 }
 
+var outRoot = "/verif"
+
 func hasTag(tags []string, p string) bool {
 	for _, t := range tags {
 		if t == p {
@@ -74,7 +76,10 @@ func mainCheck(args []string) {
 
 func runCheck(prop, tier string, seed int) int {
 	t0 := time.Now()
-	outDir := filepath.Join(verifDir, "out", prop)
+	if d := os.Getenv("GOVC_OUTROOT"); d != "" {
+		outRoot = d
+	}
+	outDir := filepath.Join(outRoot, "out", prop)
 	os.RemoveAll(outDir)
 	os.MkdirAll(outDir, 0o755)
 	undecided := func(reason string) int {
@@ -260,7 +265,10 @@ func writeReplay(path, prop string, o *Obligation) (bool, string) {
 	}
 	reproduced := false
 	detail := "no solver model (" + o.Res.Answer + "); the failed obligation is reported as such"
-	if o.Res.Answer == "sat" {
+	if o.Res.Answer == "sat" || o.RelaxedModel {
+		if o.RelaxedModel {
+			rep["model_note"] = "candidate model from the quantifier-free relaxation of the query (the full query answered " + o.Res.Answer + ")"
+		}
 		model := parseModel(o.Res.Model)
 		rep["model"] = model
 		rep["model_raw"] = firstLines(o.Res.Model, 60)
@@ -380,7 +388,7 @@ func writeEvidence(prop, tier string, seed int, all []*Obligation, keys []string
 	}
 	ev := Evidence{PropertyID: prop, Tier: tier, Seed: seed, Level: "proof", Coverage: cov, Assumptions: assumptions, WallS: round2(wall.Seconds()), Violations: violations}
 	data, _ := json.MarshalIndent(ev, "", " ")
-	writeFileMk(filepath.Join(verifDir, "evidence", prop+".json"), string(data))
+	writeFileMk(filepath.Join(outRoot, "evidence", prop+".json"), string(data))
 }
 
 // ---- lemmas: self-contained SMT obligations from the spec files ----
